@@ -381,12 +381,24 @@ REUSE_TARGETS = ['LAMMPS', 'DLPOLY', 'GULP', 'setfl', 'setfl_fs', 'DL_POLY_EAM',
 REUSE_GRIDS = [(2.0, 8, 5.0, 4), (6.5, 12, 20.0, 7)]
 
 
+def memo(f):
+    """a memoised expensive function: the 0-d numpy array computed for a separation is kept and handed out again"""
+    import numpy
+    cache = {}
+
+    def g(x):
+        if x not in cache:
+            cache[x] = numpy.array(f(x))
+        return cache[x]
+    return g
+
+
 def reuse_objects():
     import atsim.potentials as ap
     from atsim.potentials import potentialforms as pf
     import math
     pots = [ap.Potential('A', 'A', pf.morse(1.2, 2.0, 0.3)), ap.Potential('B', 'A', ap.plus(pf.morse(1.8, 2.0, 0.6), pf.polynomial(1.0, -1.0, 0.25))),
-            ap.Potential('B', 'B', lambda r: 3.0 / (1.0 + r))]
+            ap.Potential('B', 'B', memo(lambda r: 3.0 / (1.0 + r)))]
     dens = {'A': pf.exp_spline(0.7, -0.9, 0.01, 0, 0, 0, 0), 'B': pf.exp_spline(0.9, -1.0, 0.02, 0, 0, 0, 0.05)}
     dfs = {'A': {'A': dens['A'], 'B': pf.exp_spline(0.2, -1.1, 0.02, 0, 0, 0, 0)}, 'B': {'A': pf.exp_spline(0.3, -1.1, 0.02, 0, 0, 0, 0), 'B': dens['B']}}
     emb = {'A': pf.polynomial(0.1, -1.0, 0.01), 'B': lambda rho: -math.sqrt(rho + 1.0)}
